@@ -166,6 +166,7 @@ class AaAnswer(Aa):
         AvpGenDef("origin_host", AVP_ORIGIN_HOST, is_required=True),
         AvpGenDef("origin_realm", AVP_ORIGIN_REALM, is_required=True),
         AvpGenDef("user_name", AVP_USER_NAME),
+        AvpGenDef("service_type", AVP_SERVICE_TYPE),
         AvpGenDef("state_class", AVP_CLASS),
         AvpGenDef("configuration_token", AVP_CONFIGURATION_TOKEN),
         AvpGenDef("acct_interim_interval", AVP_ACCT_INTERIM_INTERVAL),
